@@ -67,3 +67,14 @@ Definition ex_ohistory : list oevent :=
                        OReorder [(Abs [None; None; None; None], None); (Rel [Some 7%N; None], None)]]);
     OCmd 11%N (OInsert (Rel [None], None) [(Some 1001%N, 3%N)]);
     OCmd 11%N (OX (XRemoveData false [(Rel [Some 7%N; Some 1000%N], None)])) ].
+
+(* both sessions use ordered children: 10 under its node 7, 11 under its own node 7 and -- in vain -- under 10's *)
+Definition ex_ohistory2 : list oevent :=
+  [ OAttach 10%N 1%N 10%N 0%N; OAttach 11%N 1%N 11%N 0%N;
+    OCmd 10%N (OX (XSetData 0%N [((false, [7%N]), 5%N)]));
+    OCmd 11%N (OX (XSetData 0%N [((false, [7%N]), 6%N)]));
+    OCmd 11%N (OInsert (Rel [Some 7%N], None) [(Some 99%N, 1%N)]);
+    OCmd 10%N (OInsert (Rel [Some 7%N], None) [(Some 99%N, 1%N); (Some 1000%N, 2%N)]);
+    OCmd 11%N (OInsert (Abs [Some 1%N; Some 10%N; Some 7%N], None) [(Some 99%N, 9%N)]);
+    OCmd 11%N (OReorder [(Abs [None; None; None; None], None); (Rel [None; None], Some 77%N)]);
+    OCmd 11%N (OBatch [OReorder [(Abs [Some 1%N; Some 10%N; Some 7%N; None], None)]; OX (XRemoveData false [(Abs [None; None; None], None)])]) ].
